@@ -40,6 +40,7 @@ type SimReader struct {
 	Seeks   int64
 	faulted bool // one-shot fault already delivered
 	FaultN  int  // times the fault was delivered
+	EOFHits int  // reads that returned (0, io.EOF)
 	log     *core.Log
 }
 
@@ -82,6 +83,7 @@ func (s *SimReader) Read(p []byte) (int, error) {
 	}
 	if s.pos >= len(s.data) {
 		s.log.Add("reader", "eof", s.pos)
+		s.EOFHits++
 		return 0, io.EOF
 	}
 	n := len(p)
